@@ -5,7 +5,7 @@ from checklib import Scenario
 RULE = ("arbitrary byte strings as file content (uniform bytes, structural-character-heavy, mutated conventional files, NUL and "
         "8-bit bytes, no trailing newline, very long lines) x 7 delimiter sets (+ exotic ones) x 3 comment sets (+ a blank) x "
         "{default, JOIN_SAME_ENTRIES, PYTHON_STYLE}; after a successful read: every listing, every typed and extended getter "
-        "on every listed key, merge with a second random file in both roles, write and read back; the same contents as main file and drop-ins of layered reads; run under ASan+UBSan and once more under clang MemorySanitizer with a "
+        "on every listed key, merge with a second random file in both roles, write and read back, and every object queried, merged and written AGAIN after it was written (section names with brackets of their own included); the same contents as main file and drop-ins of layered reads; run under ASan+UBSan and once more under clang MemorySanitizer with a "
         "per-run timeout; the return code must be success or one of the four parse codes (theorem), every sanitizer report, "
         "crash or timeout is a failing input; values are additionally compared with the model (fidelity); distinct by bytes")
 
@@ -31,7 +31,7 @@ def gen(rng, tier):
         py, jn = mode == 1, mode == 2
         cmds = [gens.parse_cmd(0, b"/d/f.conf", rfile(rng), dl, cm, py, jn), "getall 0", "dump 0",
                 gens.parse_cmd(1, b"/d/g.conf", rfile(rng), dl, cm), "merge 2 0 1", "getall 2", "merge 3 1 0", "getall 3",
-                "write 2", "reread 4 0", "getall 4"]
+                "write 2", "getall 2", "reread 4 0", "getall 4", "getall 0", "merge 5 0 4", "write 0"]
         obs = [True] + [False] * (len(cmds) - 1)
         out.append(Scenario(cmds, obs, tags=("py" if py else "join" if jn else "default",)))
     # the same arbitrary contents as main file and drop-ins of a layered read (several files per directory, any of
